@@ -64,6 +64,39 @@ W_PTR = dict(ualloc=3, uget=1, urelease=2, uswap=2, ureset=2,
              wfrom=4, wlock=4, wswap=1, wreset=2)
 
 
+def probe_variants(cases, every=2):
+    """Re-entrancy: with the header `cbprobe w` the driver's clear callback tries to lock weak pointer w into a
+    private shared pointer (and undoes it).  No owner exists while a clear callback runs, so the lock must fail for
+    the memory being destroyed; in a correct library the probe leaves every counter as it was, so the model (whose
+    callback is a pure logger) is unaffected.  Cases with stray copies are left out (the probe would trip the guard)."""
+    out = []
+    n = 0
+    for c in cases:
+        kinds = []
+        for h in c.header:
+            w = h.split()
+            if w[0] == 'pool':
+                kinds = w[1:]
+            if w[0] == 'cbprobe':
+                kinds = []
+        ws = [i for i, k in enumerate(kinds) if k == 'W']
+        if not ws or any(o.split()[0] == 'straycopy' for o in c.ops):
+            continue
+        if not any(o.split()[0] in ('wfrom', 'wswap') for o in c.ops):
+            continue
+        n += 1
+        if n % every:
+            continue
+        # probe through the weak object that the case last made refer to something
+        tgt = ws[0]
+        for o in c.ops:
+            w = o.split()
+            if w[0] == 'wfrom' and len(w) >= 3 and w[1].isdigit() and int(w[1]) in ws:
+                tgt = int(w[1])
+        out.append(Case(c.name + 'p', c.header + ['cbprobe %d' % tgt], c.ops, c.origin))
+    return out
+
+
 class C05(MemSpec):
     pid = 'C05'
     rule = ('cases = corpus + one case per edge of the breadth-first closure of the Coq model (scopes: 3 shared + 2 weak '
@@ -80,14 +113,19 @@ class C05(MemSpec):
 
     def closure(self, tier):
         if tier == 'quick':
-            return self.closures([('shared', 400), ('unique', 1000)])
-        return self.closures([('shared', 100000), ('unique', 1000)])
+            cases, st = self.closures([('shared', 400), ('unique', 1000)])
+        else:
+            cases, st = self.closures([('shared', 100000), ('unique', 1000)])
+        pv = probe_variants(cases, every=2)
+        st['cbprobe_replays'] = len(pv)
+        return cases + pv, st
 
     def random_cases(self, tier, seed):
         rnd = random.Random(seed * 7919 + 5)
         n = 400 if tier == 'quick' else 6000
         kinds = ['U', 'U', 'S', 'S', 'S', 'S', 'W', 'W', 'W']
-        return [memref.gen_case(rnd, 'rnd%d' % i, kinds, [], rnd.choice([8, 20, 40, 80]), W_PTR) for i in range(n)]
+        cases = [memref.gen_case(rnd, 'rnd%d' % i, kinds, [], rnd.choice([8, 20, 40, 80]), W_PTR) for i in range(n)]
+        return cases + probe_variants(cases, every=2)
 
 
 SPEC = C05()
